@@ -417,6 +417,9 @@ pub struct SimItems {
     pub pending_streak: u32,
     pub pendings: u64,
     pub none_polls: u64,
+    /// a clone of the bar that wraps this source: when it runs dry the source itself reports
+    /// the outcome (abandons the bar with a message), inside the very call that returns None
+    pub on_dry: Option<indicatif::ProgressBar>,
 }
 
 impl SimItems {
@@ -428,6 +431,19 @@ impl SimItems {
             pending_streak: 0,
             pendings: 0,
             none_polls: 0,
+            on_dry: None,
+        }
+    }
+    pub fn with_on_dry(mut self, pb: indicatif::ProgressBar) -> SimItems {
+        self.on_dry = Some(pb);
+        self
+    }
+    fn ran_dry(&mut self) {
+        self.none_polls += 1;
+        if self.none_polls == 1 {
+            if let Some(pb) = &self.on_dry {
+                pb.abandon_with_message("inner");
+            }
         }
     }
 }
@@ -437,7 +453,7 @@ impl Iterator for SimItems {
     fn next(&mut self) -> Option<u32> {
         let r = self.items.pop_front();
         if r.is_none() {
-            self.none_polls += 1;
+            self.ran_dry();
         }
         r
     }
@@ -449,7 +465,7 @@ impl DoubleEndedIterator for SimItems {
     fn next_back(&mut self) -> Option<u32> {
         let r = self.items.pop_back();
         if r.is_none() {
-            self.none_polls += 1;
+            self.ran_dry();
         }
         r
     }
@@ -468,7 +484,7 @@ impl futures_core::Stream for SimItems {
         self.pending_streak = 0;
         let r = self.items.pop_front();
         if r.is_none() {
-            self.none_polls += 1;
+            self.ran_dry();
         }
         Poll::Ready(r)
     }
